@@ -41,7 +41,7 @@ ASSUMPTIONS = [
 ]
 CASES = {'quick': 7000, 'thorough': 90000}
 TIME = {'quick': 70, 'thorough': 560}
-MIN_NONTRIVIAL = {'quick': 700, 'thorough': 8000}
+MIN_NONTRIVIAL = {'quick': 300, 'thorough': 3000}
 REQUIRED = ('log_replays', 'double_runs', 'copies_taken',
             'copy_same_continuations', 'copy_divergent_continuations',
             'containers_scanned', 'post_hand_shows_logged',
